@@ -26,6 +26,10 @@ structure DState where
   registry : List Item := []
   /-- an earlier step of this case left the DOM in the wrong order -/
   tainted : Bool := false
+  /-- the list is a leptos `<ForEnumerate>`: `set_index` writes a signal, the harness reads it -/
+  isFor : Bool := false
+  /-- index every item was last told (`view_fn(index, _)`, then `set_index`) -/
+  told : List (Key × Nat) := []
   deriving Inhabited
 
 def idxIn (l : List Nat) (k : Nat) : Nat := (l.idxOf? k).getD l.length
@@ -42,13 +46,24 @@ def nodeName (st : DState) (marker : NodeId) (n : NodeId) : String :=
 def joinOr (sep : String) (l : List String) : String :=
   if l.isEmpty then "-" else sep.intercalate l
 
+/-- replay the op's `view_fn` and `set_index` calls on the told-index table -/
+def tell (told : List (Key × Nat)) (log : Log) : List (Key × Nat) :=
+  (log.builds ++ log.setIndex).foldl (fun t (k, i) => (k, i) :: t.filter (·.1 != k)) told
+
+def toldOf (told : List (Key × Nat)) (k : Key) : Option Nat := (told.find? (·.1 == k)).map (·.2)
+
 def render (st : DState) (s : KState) : String :=
   let kids := " ".intercalate (s.w.kids.map (nodeName st s.marker))
-  let els := joinOr "," ((s.w.storage.filterMap id).flatMap fun it => (List.range it.nodes.length).map fun j => s!"{it.key}:{j}")
+  let items := s.w.storage.filterMap id
+  let els := if st.isFor then "-" else
+    joinOr "," (items.flatMap fun it => (List.range it.nodes.length).map fun j => s!"{it.key}:{j}")
   let b := joinOr "," (s.w.log.builds.map fun (k, i) => s!"{k}@{i}")
   let u := joinOr "," (s.w.log.unmounts.map toString)
-  let si := joinOr "," (s.w.log.setIndex.map fun (k, i) => s!"{k}>{i}")
-  s!"{kids} ; e={els} ; b={b} ; u={u} ; s={si}"
+  let si :=
+    if st.isFor then "i=" ++ joinOr "," (items.map fun it =>
+      s!"{it.key}=" ++ (match toldOf st.told it.key with | some i => toString i | none => "?"))
+    else "s=" ++ joinOr "," (s.w.log.setIndex.map fun (k, i) => s!"{k}>{i}")
+  s!"{kids} ; e={els} ; b={b} ; u={u} ; {si}"
 
 def sortNat (l : List Nat) : List Nat := l.mergeSort (· ≤ ·)
 
@@ -82,12 +97,16 @@ def judgeUpdate (st : DState) (s0 s1 : KState) (to : List Key) : Option String :
   else none
 
 def finish (st : DState) (s : KState) (v : Option String) : DState × String :=
-  let st := { st with ks := some s, tainted := !domOrderOk st s }
+  let st := { st with ks := some s, tainted := !domOrderOk st s, told := tell st.told s.w.log }
+  -- `<ForEnumerate>`: every mounted item's index signal holds its position
+  let v := if v.isNone && st.isFor &&
+      (List.range s.hashed.length).any (fun j => (s.hashed[j]?.bind (toldOf st.told)) != some j)
+    then some "set-index" else v
   (st, render st s ++ " ## " ++ (match v with | none => "ok" | some c => "fail " ++ c))
 
 def parseNats (ws : List String) : Option (List Nat) := ws.mapM String.toNat?
 
-def doInit (pre post bs : Nat) (keys : List Key) : DState × String :=
+def doInit (isFor : Bool) (pre post bs : Nat) (keys : List Key) : DState × String :=
   let preIds := List.range pre
   let s := (build bs keys preIds pre).mount none
   let postIds := List.range' s.w.next post
@@ -95,7 +114,7 @@ def doInit (pre post bs : Nat) (keys : List Key) : DState × String :=
   let st : DState :=
     { pre := preIds.map fun i => (i, s!"P{i}"),
       post := (List.range post).map fun i => (s.w.next - post + i, s!"Q{i}"),
-      registry := s.w.storage.filterMap id }
+      registry := s.w.storage.filterMap id, isFor := isFor }
   let v :=
     if s.w.log.builds != (List.range keys.length).zipWith (fun i k => (k, i)) keys then some "builds"
     else if (s.w.storage.filterMap id).map (·.key) != keys then some "storage"
@@ -115,29 +134,12 @@ def splitSlash (ws : List String) : Option (List String × List String) :=
 def step (st : DState) (line : String) : DState × String :=
   match words line with
   | ["case", n] => ({}, s!"case {n}")
-  | "init" :: p :: q :: b :: ks =>
-    match p.toNat?, q.toNat?, b.toNat?, parseNats ks with
-    | some p, some q, some b, some ks =>
-      if b == 0 || ks.eraseDups.length != ks.length then (st, "bad-op") else doInit p q b ks
-    | _, _, _, _ => (st, "bad-op")
   | "update" :: ks =>
     match st.ks, parseNats ks with
     | some s0, some ks => if ks.eraseDups.length != ks.length then (st, "bad-op") else doUpdate st s0 ks
     | _, _ => (st, "bad-op")
-  | "trans" :: p :: q :: b :: rest =>
-    match p.toNat?, q.toNat?, b.toNat?, splitSlash rest with
-    | some p, some q, some b, some (f, t) =>
-      match parseNats f, parseNats t with
-      | some f, some t =>
-        if b == 0 || f.eraseDups.length != f.length || t.eraseDups.length != t.length then (st, "bad-op") else
-        let (st1, _) := doInit p q b f
-        match st1.ks with
-        | some s0 => doUpdate st1 s0 t
-        | none => (st, "bad-op")
-      | _, _ => (st, "bad-op")
-    | _, _, _, _ => (st, "bad-op")
   | ["sib"] =>
-    match st.ks with
+    match (if st.isFor then none else st.ks) with
     | some s0 =>
       let child := s0.w.next
       let s0 := { s0 with w := { s0.w with next := s0.w.next + 1, log := {} } }
@@ -147,7 +149,7 @@ def step (st : DState) (line : String) : DState × String :=
         if !domOrderOk st s1 then some (if st.tainted then "dom-order-move-elided" else "dom-order") else none)
     | none => (st, "bad-op")
   | ["remount", j] =>
-    match st.ks with
+    match (if st.isFor then none else st.ks) with
     | some s0 =>
       let jn := if j == "e" then some st.post.length else j.toNat?
       match jn with
@@ -162,6 +164,49 @@ def step (st : DState) (line : String) : DState × String :=
         finish st s1 (if !domOrderOk st s1 then some "dom-order" else none)
       | none => (st, "bad-op")
     | none => (st, "bad-op")
+  | cmd :: p :: q :: b :: ks =>
+    if cmd == "init" || cmd == "initf" then
+      match p.toNat?, q.toNat?, b.toNat?, parseNats ks with
+      | some p, some q, some b, some ks =>
+        if b == 0 || b > 3 || p > 64 || q > 64 || ks.eraseDups.length != ks.length then (st, "bad-op")
+        else doInit (cmd == "initf") p q b ks
+      | _, _, _, _ => (st, "bad-op")
+    else if cmd == "trans" || cmd == "transf" then
+      match p.toNat?, q.toNat?, b.toNat?, splitSlash ks with
+      | some p, some q, some b, some (f, t) =>
+        match parseNats f, parseNats t with
+        | some f, some t =>
+          if b == 0 || b > 3 || p > 64 || q > 64 || f.eraseDups.length != f.length
+              || t.eraseDups.length != t.length then (st, "bad-op") else
+          let (st1, _) := doInit (cmd == "transf") p q b f
+          match st1.ks with
+          | some s0 => doUpdate st1 s0 t
+          | none => (st, "bad-op")
+        | _, _ => (st, "bad-op")
+      | _, _, _, _ => (st, "bad-op")
+    else (st, "bad-op")
   | _ => (st, "bad-op")
 
-def main : IO Unit := runDriver step {}
+/-- all output lines of one case (state is per case: `step` resets it at every `case` line) -/
+def runCase (lines : Array String) : Array String :=
+  (lines.foldl (fun (acc : DState × Array String) l =>
+    let (st, o) := step acc.1 l
+    (st, acc.2.push o)) ({}, #[])).2
+
+partial def readCases (h : IO.FS.Stream) (cur : Array String) (acc : Array (Array String)) :
+    IO (Array (Array String)) := do
+  let line ← h.getLine
+  if line.isEmpty then return (if cur.isEmpty then acc else acc.push cur)
+  if line.startsWith "case " && !cur.isEmpty then readCases h #[line] (acc.push cur)
+  else readCases h (cur.push line) acc
+
+/-- same observable behaviour as `Leptos.Wire.runDriver step {}` (one output line per input line, in
+order); the cases are independent, so they are evaluated as parallel tasks -/
+def main : IO Unit := do
+  let cases ← readCases (← IO.getStdin) #[] #[]
+  let tasks := cases.map fun c => Task.spawn fun _ => runCase c
+  let out ← IO.getStdout
+  for t in tasks do
+    for o in t.get do
+      out.putStrLn o
+  out.flush
